@@ -31,6 +31,7 @@ TO = min(int(os.environ.get("H_TO", str(len(CORPUS)))), len(CORPUS))
 LO = int(os.environ.get("H_LO", "-2"))
 HI = int(os.environ.get("H_HI", "2"))
 SLEN = int(os.environ.get("H_SLEN", "1"))
+XMAX = int(os.environ.get("H_XMAX", "2"))  # leaves below <x>
 
 REC = []
 
@@ -272,7 +273,7 @@ def equiv(p: int, a: int, b: int, s: str, x: str, y: str) -> bool:
     """
     pre: FROM <= p < TO and LO <= a <= HI and LO <= b <= HI
     pre: len(s) <= SLEN and all(c in "ab" for c in s)
-    pre: 1 <= len(x) <= 2 and len(y) == 1 and all(c in ALPHA for c in x) and all(c in ALPHA for c in y)
+    pre: 1 <= len(x) <= XMAX and len(y) == 1 and all(c in ALPHA for c in x) and all(c in ALPHA for c in y)
     post: _
     """
     text = CORPUS[p]
@@ -288,7 +289,7 @@ def reach(p: int, a: int, b: int, s: str, x: str, y: str) -> bool:
     """
     pre: FROM <= p < TO and LO <= a <= HI and LO <= b <= HI
     pre: len(s) <= SLEN and all(c in "ab" for c in s)
-    pre: 1 <= len(x) <= 2 and len(y) == 1 and all(c in ALPHA for c in x) and all(c in ALPHA for c in y)
+    pre: 1 <= len(x) <= XMAX and len(y) == 1 and all(c in ALPHA for c in x) and all(c in ALPHA for c in y)
     post: _
     """
     text = CORPUS[p]
